@@ -213,7 +213,7 @@ func (cr *caseRun) step(w weights) {
 			return
 		}
 		ch := chs[cr.r.Intn(len(chs))]
-		ahead := []time.Duration{0, scanShort, scanShort, scanAll}[cr.r.Intn(4)]
+		ahead := []time.Duration{0, scanShort, scanShort, scanMid, scanMid, scanAll}[cr.r.Intn(6)]
 		cr.opScan(ch[0], ch[1], cr.r.Chance(65), ahead)
 	case "cls":
 		if len(subs) == 0 {
